@@ -279,6 +279,29 @@ def r07_4(ctx, rep):
         raise AnalysisError("R07.4", "expected >=5 enter/exit state pairs, found %d" % n)
 
 
+@SPEC.rule(
+    "R07.5",
+    "pipeline: flatten_class runs build_instance_tree, then apply_constant_references, then flatten_symbols on the same "
+    "instance tree; flatten runs flatten_class, expand_connectors, add_state_value_equations and annotate_states on the "
+    "flat class on every path before returning",
+)
+def r07_5(ctx, rep):
+    R = "R07.5"
+    for fname, stages in (("flatten_class", ["build_instance_tree", "apply_constant_references", "flatten_symbols"]),
+                          ("flatten", ["flatten_class", "expand_connectors", "add_state_value_equations", "annotate_states"])):
+        fn = ctx.func(TREE, fname, R)
+        cfg = CFG(fn, R)
+        pos = {}
+        for st in stages:
+            nodes = [x for x in cfg.stmts() if any(is_name(c.func, st) for c in calls(x.ast))]
+            ok = bool(nodes) and cfg.must_pass(cfg.entry, cfg.exit, {x.id for x in nodes}) is None
+            rep.ob(R, TREE + ":" + fname, "stage " + st, ok, "every path through %s must call %s" % (fname, st))
+            if nodes:
+                pos[st] = nodes[0].id
+        order_ok = all(a in pos and b in pos and pos[a] in cfg.dominators()[pos[b]] for a, b in zip(stages, stages[1:]))
+        rep.ob(R, TREE + ":" + fname, "stage order", order_ok, "stages must run in the order %s" % " -> ".join(stages))
+
+
 # -- seeded variants ---------------------------------------------------------
 from ._mut import delete_stmt_where, replace_in_func  # noqa: E402
 
@@ -356,3 +379,22 @@ def _m8(mod):
         return False
 
     return mod if replace_in_func(mod, "flatten_extends", edit) else None
+
+
+@SPEC.mutant("constant references not applied", TREE, "R07.5", "apply_constant_references")
+def _m9(mod):
+    return mod if delete_stmt_where(mod, "flatten_class", lambda st: "apply_constant_references(" in norm(st)) else None
+
+
+@SPEC.mutant("states annotated before value equations are added", TREE, "R07.5", "stage order")
+def _m10(mod):
+    def edit(fn):
+        idx = [i for i, st in enumerate(fn.body) if "annotate_states(" in norm(st)]
+        j = [i for i, st in enumerate(fn.body) if "expand_connectors(" in norm(st)]
+        if not idx or not j:
+            return False
+        st = fn.body.pop(idx[0])
+        fn.body.insert(j[0], st)
+        return True
+
+    return mod if replace_in_func(mod, "flatten", edit) else None
